@@ -184,4 +184,36 @@ theorem hashlittle2C_eq (addr : Nat) (key after : List UInt8) (pc pb : UInt32) :
     · exact path16_eq key after pc pb
     · exact path8_eq key after pc pb
 
+theorem tailOk32V : TailOk Gen.l3Tail32V := by
+  intro key after a b c h1 h2
+  rcases key with _ | ⟨x0, _ | ⟨x1, _ | ⟨x2, _ | ⟨x3, _ | ⟨x4, _ | ⟨x5, _ | ⟨x6, _ | ⟨x7, _ | ⟨x8, _ | ⟨x9, _ | ⟨x10, _ | ⟨x11, _ | ⟨x12, rest⟩⟩⟩⟩⟩⟩⟩⟩⟩⟩⟩⟩⟩
+  · simp at h1
+  · exact tail32V_1 x0 after a b c
+  · exact tail32V_2 x0 x1 after a b c
+  · exact tail32V_3 x0 x1 x2 after a b c
+  · exact tail32V_4 x0 x1 x2 x3 after a b c
+  · exact tail32V_5 x0 x1 x2 x3 x4 after a b c
+  · exact tail32V_6 x0 x1 x2 x3 x4 x5 after a b c
+  · exact tail32V_7 x0 x1 x2 x3 x4 x5 x6 after a b c
+  · exact tail32V_8 x0 x1 x2 x3 x4 x5 x6 x7 after a b c
+  · exact tail32V_9 x0 x1 x2 x3 x4 x5 x6 x7 x8 after a b c
+  · exact tail32V_10 x0 x1 x2 x3 x4 x5 x6 x7 x8 x9 after a b c
+  · exact tail32V_11 x0 x1 x2 x3 x4 x5 x6 x7 x8 x9 x10 after a b c
+  · exact tail32V_12 x0 x1 x2 x3 x4 x5 x6 x7 x8 x9 x10 x11 after a b c
+  · simp at h2 <;> omega
+
+theorem path32V_eq (key after : List UInt8) (pc pb : UInt32) :
+    hashlittle2Path Gen.l3Block32 Gen.l3Tail32V (key ++ after) key.length pc pb = hashlittle2 key pc pb :=
+  path_eq blockOk32 tailOk32V key after pc pb
+
+/-- the function as compiled with `-DVALGRIND` -/
+theorem hashlittle2CV_eq (addr : Nat) (key after : List UInt8) (pc pb : UInt32) :
+    hashlittle2CV addr (key ++ after) key.length pc pb = hashlittle2 key pc pb := by
+  unfold hashlittle2CV
+  split
+  · exact path32V_eq key after pc pb
+  · split
+    · exact path16_eq key after pc pb
+    · exact path8_eq key after pc pb
+
 end AwsVerif.Proofs.C02
